@@ -133,6 +133,8 @@ def deviation(c):
         return "mv-modified-stat"
     if op == "add" and p not in wt and p not in idx and p in st["head"] and not isdir(p):
         return "add-missing-path-ok"
+    if op == "add" and p not in wt and p not in idx and not isdir(p) and any(under(p, q) for q in idx):
+        return "add-deleted-dir"
     if op == "clean" and any(q not in idx and not pg.ignored(st, q) and any(under(e, q) for e in idx) for q in wt):
         return "clean-under-tracked-name"
     if op == "clean" and c["dir"]:
